@@ -803,6 +803,14 @@ theorem listsEqualDD_iff_eq (v1 v2 : List (List Dbl)) :
     rw [listsEqualD_iff_eq]
     exact ⟨rfl, hn _ (List.getElem_mem h1)⟩
 
+/-- nested lists: `Lists_Equal(vv, vv)` is true iff no row contains a NaN — an identity shortcut
+    (`&v1 == &v2 → true`) contradicts this and `listsEqualD_self` exactly on lists with a NaN -/
+theorem listsEqualDD_self (v : List (List Dbl)) :
+    listsEqualDD v v = true ↔ ∀ row ∈ v, Dbl.nan ∉ row := by
+  rw [listsEqualDD_iff_eq]; simp
+example : listsEqualD [.fin 1, .nan] [.fin 1, .nan] = false ∧ listsEqualDD [[.fin 0], [.nan]] [[.fin 0], [.nan]] = false ∧
+    listsEqualDD [[.fin 0], [.pinf]] [[.fin 0], [.pinf]] = true := by decide
+
 -- signed zeros are one element, a NaN breaks reflexivity, a shorter list is never equal
 example : listsEqualD [.fin (-0), .fin 1] [.fin 0, .fin 1] = true := by decide
 example : listsEqualD [.fin 1, .nan] [.fin 1, .nan] = false := by decide
